@@ -370,7 +370,7 @@ def _linger(d):
         Thread(target=time.sleep, args=(d,), name='lingering').start()
 
 
-def p_pool(x, poison=(), fail_after=None, d=0.0, linger=0.0):
+def p_pool(x, poison=(), fail_after=None, d=0.0, linger=0.0, origin_only=()):
     """pool target: x is a unique input id; raises on poison inputs; dies after `fail_after` calls (per worker); with `linger`
     the dying worker's process stays around for a while after its pipes are closed"""
     truth('p-enter', x=x)
@@ -381,6 +381,10 @@ def p_pool(x, poison=(), fail_after=None, d=0.0, linger=0.0):
                     time.sleep(0.01)
             except Exception:
                 truth('swallowed')
+    if x in origin_only:
+        # a result the parent cannot rebuild (class of the child's main script, failing __setstate__, ...)
+        truth('p-leave', x=x)
+        return OriginOnly(x)
     key = (_os.getpid(), get_ident())
     n = _CALLS.get(key, 0) + 1
     _CALLS[key] = n
